@@ -3,18 +3,43 @@
 // Oracle: refssz (independent encoder / strict decoder / schema table). Values cross into the
 // library AS BYTES: B = refssz.Serialize(V), V drawn with refssz.Random under mainnet, minimal and
 // two tiny custom presets. Per (Go type, preset, V):
-//   Deserialize(B) succeeds; Serialize() == B; ByteLength() == len(B); FixedLength() == len(B) for
-//   fixed-size schemas, 0 for variable-size ones; json.Marshal -> Unmarshal -> Serialize == B, same
-//   for YAML; json.Marshal(struct) equals refssz.ToJSON(V) BY FIELD NAME (breaks symmetric swaps);
-//   every input derived from B in the three refusal classes of the property (truncation at every
-//   field boundary ±1, one list/bitlist/bytelist one over its limit, corrupted offsets) is refused
-//   whenever the strict reference decoder refuses it (and decoded identically when it happens to
-//   be a valid encoding of another value); nothing panics.
+//
+//	Deserialize(B) succeeds; Serialize() == B; ByteLength() == len(B); FixedLength() == len(B) for
+//	fixed-size schemas, 0 for variable-size ones; json.Marshal -> Unmarshal -> Serialize == B, same
+//	for YAML; json.Marshal(struct) equals refssz.ToJSON(V) BY FIELD NAME (breaks symmetric swaps);
+//	every input derived from B in the three refusal classes of the property (truncation at every
+//	field boundary ±1, one list/bitlist/bytelist one over its limit, corrupted offsets) is refused
+//	whenever the strict reference decoder refuses it (and decoded identically when it happens to
+//	be a valid encoding of another value); nothing panics.
+//
 // Differential body (FuzzDecode / "x" searches): for mutated encodings and arbitrary bytes the
 // library decodes iff the reference decoder does (modulo the documented leniencies outside the
 // three classes) and re-encodes to the input.
 //
-// Sensitivity (tools/trymut.py, quick tier) — see the list at the end of this file.
+// Decisions on decoder leniency (property: "input that is truncated, exceeds a list or bitlist
+// limit, or carries inconsistent offsets is refused"), all listed in the evidence:
+//
+//	L1 trailing bytes after a fixed-size object decoded from a longer top-level scope are ignored
+//	   by the library (nested fixed-size fields get exact scopes): outside the three classes, tolerated.
+//	L2 padding bits of JustificationBits / SyncnetBits (raw-byte bitvectors) may be set: outside
+//	   the three classes, tolerated. (Bitvectors decoded through dr.BitVector do refuse them.)
+//	Not tolerated, repaired in /repo: a full bitlist refused when limit%8==0 (C04-F03); a list of
+//	variable-size containers with an empty-span element accepted (C04-F06).
+//
+// JSON: a nil slice marshals as null where the spec form is []; it round-trips, so the by-name
+// comparison treats null as the empty list. capella.HistoricalSummary has no json tags (keys are
+// the Go field names); compared through an explicit key map.
+//
+// Sensitivity (tools/trymut.py, quick tier, all CAUGHT):
+//
+//	M1 common/header.go      BeaconBlockHeader.Serialize only: ParentRoot <-> StateRoot swapped
+//	M2 phase0/deposit.go     Deposits.Deserialize limit MAX_DEPOSITS -> MAX_ATTESTATIONS
+//	M3 phase0/pending_attestation.go  PendingAttestation.ByteLength without ProposerIndex
+//	M4 phase0/indexed.go     IndexedAttestation.FixedLength 0 -> 228 (variable-size type)
+//	M5 phase0/voluntary_exit.go  json tag validator_index renamed
+//	M6 altair/sync_message.go    json tag validator_index dropped
+//	N9 common/eth1.go        Eth1Data: DepositRoot <-> BlockHash swapped in BOTH Serialize and
+//	                         Deserialize (survives every round trip; caught by JSON-by-name, and by C05)
 package c04
 
 import (
@@ -429,7 +454,7 @@ func run(c *Case) (*report.Failure, *runInfo) {
 	if len(B) <= 1<<18 {
 		lay := refssz.Analyze(t, V)
 		var muts []refssz.Mutant
-		muts = append(muts, refssz.Truncations(lay, B, 90)...)
+		muts = append(muts, refssz.Truncations(lay, B, 60)...)
 		muts = append(muts, refssz.OverLimit(t, V, 1<<17)...)
 		muts = append(muts, refssz.OffsetCorruptions(lay, B, 12)...)
 		for _, m := range muts {
@@ -635,6 +660,9 @@ func TestCheck(t *testing.T) {
 	for k, why := range jsonByNameExempt {
 		ex = append(ex, k+": "+why)
 	}
+	for k := range jsonUntagged {
+		ex = append(ex, k+" (no json tags: compared through an explicit Go-field-name key map, not exempted)")
+	}
 	sort.Strings(ex)
 	r.S.Extra["json_by_name_exempt"] = ex
 	r.S.Extra["leniencies"] = leniencyNotes
@@ -649,6 +677,13 @@ func TestCheck(t *testing.T) {
 	for _, typ := range types {
 		for _, f := range fams {
 			r.Mandatory("seen:" + typ + "@" + f)
+		}
+	}
+	// at-limit values are constructible for every list-bearing type under the custom presets
+	custom := reg.GetPreset("custom-a")
+	for _, typ := range types {
+		if refssz.HasLists(custom.Sch.MustGet(bindings[typ].Decl)) {
+			r.Mandatory("at-limit:" + typ + "@custom")
 		}
 	}
 	r.Mandatory("shape:at-limit", "shape:min", "shape:typical",
@@ -670,6 +705,9 @@ func TestCheck(t *testing.T) {
 		if info.atLimit > 0 {
 			r.Hit("shape:at-limit")
 			r.Class("value:has-list-at-limit")
+			if p.Family == "custom" {
+				r.Hit("at-limit:" + c.Type + "@custom")
+			}
 		}
 		if info.fixed {
 			r.Hit("kind:fixed-size")
@@ -727,7 +765,7 @@ func TestCheck(t *testing.T) {
 					return c, f
 				})
 			}
-			nv := scale(tier(r, 40, 500), size)
+			nv := scale(tier(r, 40, 400), size)
 			r.Search(t, "v|"+typ+"|"+pn, idx, nv, func(rt *rapid.T) (any, *report.Failure) {
 				shape := rapid.SampledFrom([]string{"typical", "typical", "typical", "at-limit", "min"}).Draw(rt, "shape")
 				c := genValue(rt, typ, p, shape)
@@ -735,7 +773,7 @@ func TestCheck(t *testing.T) {
 				record(c, info, p)
 				return c, f
 			})
-			nx := scale(tier(r, 120, 4000), size)
+			nx := scale(tier(r, 100, 2000), size)
 			r.Search(t, "x|"+typ+"|"+pn, 200000+idx, nx, func(rt *rapid.T) (any, *report.Failure) {
 				c := genBytes(rt, typ, p)
 				f, info := run(c)
@@ -754,7 +792,13 @@ func tier(r *report.Run, q, th int) int {
 	return q
 }
 
-var leniencyNotes = []string{}
+var leniencyNotes = []string{
+	"L1 tolerated: trailing bytes after a fixed-size object decoded from a longer top-level scope are not read (outside the three refusal classes)",
+	"L2 tolerated: set padding bits in JustificationBits / SyncnetBits (also inside MetaData) are accepted (outside the three refusal classes)",
+	"JSON: nil slices marshal as null instead of []; round-trips; by-name comparison treats null as the empty list",
+	"JSON: capella.HistoricalSummary has no json tags (keys BlockSummaryRoot/StateSummaryRoot); compared through an explicit key map",
+	"phase0.RegistryIndices.FixedLength() takes no *Spec, so the type is not a common.SpecObj and cannot be spec.Wrap-ped; exercised through per-method adapters",
+}
 
 // corpusDir is where FuzzDecode's seed corpus lives.
 func corpusDir() string {
